@@ -249,15 +249,24 @@ func (tc *TemplateChecker) Finish() error {
 	defs, cfgExtra := tc.setup.cfg(c)
 	var sb strings.Builder
 	sb.WriteString(defs)
-	sb.WriteString("Recs == <<\n")
+	// identical (state projection, template) pairs are judged once
+	uniq := map[string]int{}
+	var order []string
+	idx := make([]int, len(recs))
 	for i, r := range recs {
 		st := r.node.State
-		if i > 0 {
-			sb.WriteString(",\n")
-		}
-		fmt.Fprintf(&sb, " [r |-> %s, pool |-> %s, orph |-> %s, chain |-> %s, content |-> %s, stale |-> %s]",
+		entry := fmt.Sprintf(" [r |-> %s, pool |-> %s, orph |-> %s, chain |-> %s, content |-> %s, stale |-> %s]",
 			r.tla, domainSet(st["pool"]), st["orph"].String(), st["chain"].String(), st["content"].String(), st["stale"].String())
+		k, ok := uniq[entry]
+		if !ok {
+			k = len(order)
+			uniq[entry] = k
+			order = append(order, entry)
+		}
+		idx[i] = k
 	}
+	sb.WriteString("Recs == <<\n")
+	sb.WriteString(strings.Join(order, ",\n"))
 	sb.WriteString("\n>>\n")
 	sb.WriteString("Verdicts == [i \\in 1..Len(Recs) |-> [f |-> TemplateFailures(Recs[i].r, Recs[i].pool, Recs[i].chain, Recs[i].content, Recs[i].stale),\n")
 	sb.WriteString("                                     a |-> InAlgo(Recs[i].r, Recs[i].pool, Recs[i].orph, Recs[i].chain, Recs[i].content)]]\n")
@@ -284,13 +293,13 @@ func (tc *TemplateChecker) Finish() error {
 		return err
 	}
 	verd := v.Seq()[1].Seq()
-	if len(verd) != len(recs) {
-		return fmt.Errorf("universe %s: %d verdicts for %d templates", u.Name, len(verd), len(recs))
+	if len(verd) != len(order) {
+		return fmt.Errorf("universe %s: %d verdicts for %d distinct templates", u.Name, len(verd), len(order))
 	}
 	tc.ctx.AddTraces(int64(len(recs)))
 	drift := 0
-	for k, vd := range verd {
-		r := recs[k]
+	for k, r := range recs {
+		vd := verd[idx[k]]
 		fails := vd.F("f").Strs()
 		for _, f := range fails {
 			tc.ctx.Violation("template:"+f, fmt.Sprintf("universe %s policy %d: template generated in pool state %s violates %q: %v", u.Name, r.pol+1, domainSet(r.node.State["pool"]), f, r.desc),
